@@ -47,6 +47,9 @@ class VerifyMixin(object):
         if actual != declared:
             raise OutsideSubset("parameters of %s are %s, sidecar declares %s" % (c.qualname, actual, declared))
         st = self.initial_state(c)
+        for x in (fn.args.vararg, fn.args.kwarg):
+            if x is not None:
+                st.alias.pop(x.arg, None)      # *args / **kwargs are fresh objects of the callee: never caller-visible
         # defaults are not substituted: parameters are arbitrary values of the declared type
         pre = st
         pre.old = None
